@@ -398,7 +398,7 @@ func randomBytes(seed int64, n int) []byte {
 }
 
 func C03(c *core.Ctx) {
-	c.Rule = "case = one event of one of six sources, each judged by P_C03 of Range.tla (no WriteAt outside the owner's range, guard bytes intact): (1) one tuple of Range.tla: filesystem kind x start {0, one sector, 1 MiB, > 4 GiB on a sparse device} x size class {small, not a multiple of the cluster/block, mid} x workload {fill to no-space twice with directory creation at capacity, directory growth to hundreds of long names with removals, mixed create/overwrite/append/gap/rename/remove/label/attributes, finalized kinds: tree one and a half times the range}; (2) every call of TLC-generated FatTree walks (incl. Fill) on FAT12/16/32 volumes at the four starts; (3) every call of the scripted ExtTree behaviours (many extents, churn, big file) on ext4 volumes at the four starts; (4) every partition-table tuple of PartTable.tla (also judged by PartTable_Trace for C03: previous boot code and partition data kept); (5) every partition-contents tuple of PartIO.tla (write and raw copy); (6) every call of the composition behaviours of Disk.tla (Partition / CreateFilesystem / Finalize / file create+remove / WritePartitionContents / CopyPartitionRaw on a table with three slots): the bytes of every slot the call is not aimed at, the boot code and the gaps keep their digest, the table sectors change only in Partition; non-trivial = every event (distinct key = source + tuple/behaviour)"
+	c.Rule = "case = one event of one of six sources, each judged by P_C03 of Range.tla (no WriteAt outside the owner's range, guard bytes intact): (1) one tuple of Range.tla: filesystem kind x start {0, one sector, 1 MiB, > 4 GiB on a sparse device} x size class {small, not a multiple of the cluster/block, mid} x workload {fill to no-space twice with directory creation at capacity, directory growth to hundreds of long names with removals, mixed create/overwrite/append/gap/rename/remove/label/attributes, finalized kinds: tree one and a half times the range}; (2) every call of TLC-generated FatTree walks (incl. Fill) on FAT12/16/32 volumes at the four starts; (3) every call of the scripted ExtTree behaviours (many extents, churn, big file) on ext4 volumes at the four starts; (4) every partition-table tuple of PartTable.tla (also judged by PartTable_Trace for C03: previous boot code and partition data kept) and the class foreign-regrow (GPT of 128..192 entries from an independent writer, read, adapted with Repair/Resize, last partition stretched to LastDataSector(), written: no byte of a partition range written); (5) every partition-contents tuple of PartIO.tla (write and raw copy); (6) every call of the composition behaviours of Disk.tla (Partition / CreateFilesystem / Finalize / file create+remove / WritePartitionContents / CopyPartitionRaw on a table with three slots): the bytes of every slot the call is not aimed at, the boot code and the gaps keep their digest, the table sectors change only in Partition; non-trivial = every event (distinct key = source + tuple/behaviour)"
 	c.Assumptions = []string{"pattern-filled sparse memdev: every WriteAt is range-checked as it happens (FailOutside) and the bytes outside the range are compared with the background afterwards", "fill workloads must actually reach a refusal, otherwise the run is BROKEN (vacuous)"}
 	mc, err := tlcRun("Range", "Range_MC.cfg")
 	if err != nil || !mc.OK {
